@@ -941,3 +941,21 @@ Qed.
 Lemma foreign_close_harmless_lemma s h :
   b_step s (BFsClose h) = (s, BErr) /\ fst (b_step s (BNetClose h)) = s.
 Proof. split; reflexivity. Qed.
+
+(* ------------------------------------------------------------------ the charge of the whole state *)
+Lemma mem_accounting_lemma st :
+  MemInv st -> mem_charged st = 8 * live_total (allocs (fst st)) + btotal (snd st).
+Proof. intro HI. unfold mem_charged. rewrite (accounting_lemma _ HI). reflexivity. Qed.
+
+Lemma mem_error_keeps_charge st o :
+  MemInv st ->
+  (match snd (mem_step st o) with ResM r => is_err r = true | ResB r => r = BErr end) ->
+  mem_charged (fst (mem_step st o)) = mem_charged st.
+Proof.
+  intros HI He. destruct st as [s b]. unfold MemInv in HI. cbn [fst] in HI.
+  destruct o as [o|o]; cbn [mem_step fst snd] in *.
+  - pose proof (mh_err_unchanged_u s o HI) as H. destruct (mh_step s o) as [s' r]. cbn [fst snd] in *.
+    rewrite (H He). reflexivity.
+  - pose proof (b_errors_change_nothing_lemma b o) as H. destruct (b_step b o) as [b' r]. cbn [fst snd] in *.
+    rewrite (H He). reflexivity.
+Qed.
